@@ -193,3 +193,69 @@ func verifH_C08_temporal_roundtrip() {
 	}
 	verifReach("temporal-round-tripped")
 }
+
+// Temporal values inside lists, structs and maps go through appendToBuilder, a
+// second encoder: it must put the same wire value into the builder as the
+// top-level encoder buildArray does (whose round trip is decided above).
+//
+//verif:stub github.com/apache/arrow-go/v18/arrow/array.NewDate32Builder = verifC08NewDate32Builder
+//verif:stub (*github.com/apache/arrow-go/v18/arrow/array.Date32Builder).Append = verifC08Date32Append
+//verif:stub (*github.com/apache/arrow-go/v18/arrow/array.Date32Builder).NewArray = verifC08Date32NewArray
+//verif:stub (*github.com/apache/arrow-go/v18/arrow/array.Date32Builder).Release = verifC08Date32Release
+//verif:stub github.com/apache/arrow-go/v18/arrow/array.NewTime64Builder = verifC08NewTime64Builder
+//verif:stub (*github.com/apache/arrow-go/v18/arrow/array.Time64Builder).Append = verifC08Time64Append
+//verif:stub (*github.com/apache/arrow-go/v18/arrow/array.Time64Builder).NewArray = verifC08Time64NewArray
+//verif:stub (*github.com/apache/arrow-go/v18/arrow/array.Time64Builder).Release = verifC08Time64Release
+//verif:stub github.com/apache/arrow-go/v18/arrow/array.NewDurationBuilder = verifC08NewDurationBuilder
+//verif:stub (*github.com/apache/arrow-go/v18/arrow/array.DurationBuilder).Append = verifC08DurationAppend
+//verif:stub (*github.com/apache/arrow-go/v18/arrow/array.DurationBuilder).NewArray = verifC08DurationNewArray
+//verif:stub (*github.com/apache/arrow-go/v18/arrow/array.DurationBuilder).Release = verifC08DurationRelease
+//verif:stub github.com/apache/arrow-go/v18/arrow/array.NewTimestampBuilder = verifC08NewTimestampBuilder
+//verif:stub (*github.com/apache/arrow-go/v18/arrow/array.TimestampBuilder).Append = verifC08TimestampAppend
+//verif:stub (*github.com/apache/arrow-go/v18/arrow/array.TimestampBuilder).NewArray = verifC08TimestampNewArray
+//verif:stub (*github.com/apache/arrow-go/v18/arrow/array.TimestampBuilder).Release = verifC08TimestampRelease
+//verif:ints lia
+//verif:bound one time.Time (seconds within +-2^60 microseconds of the epoch — about +-36 500 years, far past what a nanosecond Duration can span — ANY nanosecond part), given as a value or through a pointer, appended as timestamp / date / time, and one time.Duration (ANY value) appended as duration, through the real appendToBuilder into a recording builder; compared with what the real buildArray records for the same value
+func verifH_C08_nested_temporal_encode() {
+	s := verifNondetInt64("sec")
+	n := verifNondetInt64("nsec")
+	verifAssume(s >= -1152921504606 && s <= 1152921504606 && n >= 0 && n < 1000000000)
+	g := time.Unix(s, n).UTC()
+	var dt arrow.DataType
+	var b array.Builder
+	var val interface{} = g
+	kind := verifChoice("kind", 4)
+	switch kind {
+	case 0:
+		ts := &arrow.TimestampType{Unit: arrow.Microsecond}
+		if verifNondetBool("utc") {
+			ts.TimeZone = "UTC"
+		}
+		dt, b = ts, array.NewTimestampBuilder(nil, ts)
+	case 1:
+		dt, b = arrow.FixedWidthTypes.Date32, array.NewDate32Builder(nil)
+	case 2:
+		t64 := &arrow.Time64Type{Unit: arrow.Microsecond}
+		dt, b = t64, array.NewTime64Builder(nil, t64)
+	default:
+		du := &arrow.DurationType{Unit: arrow.Microsecond}
+		dt, b = du, array.NewDurationBuilder(nil, du)
+		val = time.Duration(verifNondetInt64("duration"))
+	}
+	if kind != 3 && verifNondetBool("through_pointer") {
+		val = &g
+	}
+	nested := verifC08TOf(b)
+	err := appendToBuilder(b, dt, val)
+	verifReach("appended")
+	verifAssert(err == nil && nested.count == 1 && !nested.null, "a temporal element is appended")
+	verifC08TBuilds = nil
+	arr, err2 := buildArray(nil, dt, val)
+	verifAssert(err2 == nil && arr != nil && len(verifC08TBuilds) == 1, "the same value serialises at top level")
+	if err == nil && err2 == nil && len(verifC08TBuilds) == 1 {
+		verifAssert(nested.v == verifC08TBuilds[0].v, "an element inside a list, struct or map is written with the same wire value as a top-level column")
+		if kind == 0 {
+			verifAssert(nested.v == g.UnixMicro(), "a nested timestamp is its instant in microseconds, however far from the epoch")
+		}
+	}
+}
